@@ -78,6 +78,10 @@ func Bar() int { return 5 }
 
 type Opt struct{ On bool }
 `},
+	{Key: "F", ImportPath: "golang.org/x/bar", PkgPath: "ex.com/self/vendor/ex.org/dep/vendor/golang.org/x/bar", Name: "bar", Src: `package bar
+
+func Baz() int { return 6 }
+`},
 }
 
 // Snippet is a declaration that uses some libraries. Q(key) is replaced by the qualifier the file
@@ -97,6 +101,7 @@ var Snippets = []Snippet{
 	{[]string{"C"}, "func c${N}() ${C}K {\n\treturn ${C}Do(${C}One)\n}"},
 	{[]string{"D"}, "func d${N}() int {\n\tv := ${D}DotT{A: ${D}DotV}\n\treturn ${D}DotF() + v.A\n}"},
 	{[]string{"E"}, "func e${N}() int {\n\to := ${E}Opt{On: true}\n\t_ = o\n\treturn ${E}Bar()\n}"},
+	{[]string{"F"}, "func f${N}() int {\n\treturn ${F}Baz()\n}"},
 	{[]string{"A", "B"}, "func ab${N}() int {\n\treturn ${A}F(${B}F2())\n}"},
 	{[]string{"A", "C"}, "var ac${N} = map[${C}K]${A}T{${C}One: {X: 1}}"},
 	{nil, "func local${N}() int {\n\tx := len(\"abc\")\n\tvar y int = x\nL:\n\tfor y > 0 {\n\t\ty--\n\t\tcontinue L\n\t}\n\treturn y + helper()\n}"},
